@@ -187,6 +187,7 @@ theorem no_uninit_read {s : Sys} {g : Obs} (r : Reach s g) (op : Op) (_ : Legal 
   | ack => simp [step]
   | cccd on => simp [step]
   | wheel => simp [step]
+  | reconnect => simp [step]
 
 /-- Progress ("produces"): whenever a procedure is pending, the environment can always obtain its
     response — the handler's confirmation if it is still owed, the client's confirmation of an
@@ -227,5 +228,102 @@ theorem pending_response_enabled {s : Sys} {g : Obs} (r : Reach s g) (hp : g.pen
 example : ∃ s g, Reach s g ∧ g.pending = true ∧ g.owed = true :=
   ⟨_, _, runObs_reach (.init []) (ops := [.write [9, 9], .output, .write [1, 0, 0, 0, 0]]) rfl,
     by decide, by decide⟩
+
+/-! ## Outside the scope above: "never deadlocks" when the client may clear the CCCD or the link is
+    lost. The theorems above hold for histories in which the control point stays configured for
+    indications on one connection (`Legal`). Without that restriction the control point wedges for
+    good (known findings `C40:wedged:cccd-cleared-while-response-queued`,
+    `C40:wedged:disconnect-while-procedure-pending`). -/
+
+/-- histories restricted by the handler contract only: the client may clear the CCCD, the link
+    may be lost -/
+def LegalAll (g : Obs) : Op → Prop
+  | .confirm => g.owed = true
+  | _ => True
+
+inductive ReachAll : Sys → Obs → Prop where
+  | init (locs : List UInt8) : ReachAll (Sys.init locs) Obs.init
+  | step {s g} (op : Op) : ReachAll s g → LegalAll g op → ReachAll (step s op).1 (g.observe op (step s op).2)
+
+/-- what client and link layer can do to get the control point going again: configure indications,
+    confirm whatever indication is outstanding, let the link layer send -/
+def ClientOp : Op → Prop
+  | .cccd true => True
+  | .ack => True
+  | .output => True
+  | _ => False
+
+/-- the control point is usable again after some client / link layer activity: a well-formed
+    Request Supported Sensor Locations is accepted -/
+def Recovers (s : Sys) : Prop :=
+  ∃ rec : List Op, (∀ op ∈ rec, ClientOp op) ∧ (step (run s rec).1 (.write [opRequestLocations])).2 = .ok
+
+/-- "never deadlocks", for every history that respects the handler contract -/
+def never_deadlocks_full : Prop := ∀ s g, ReachAll s g → Recovers s
+
+/-- a state with a procedure in progress and no response queued stays like that under everything
+    client and link layer can do; every request is refused -/
+theorem wedged_for_ever (s : Sys) (h1 : s.cp.inProgress = true) (h2 : s.queued = false) : ¬ Recovers s := by
+  intro ⟨rec, hrec, hw⟩
+  have key : ∀ (rec : List Op) (s : Sys), s.cp.inProgress = true → s.queued = false → (∀ op ∈ rec, ClientOp op) →
+      (run s rec).1.cp.inProgress = true ∧ (run s rec).1.queued = false := by
+    intro rec
+    induction rec with
+    | nil => intro s a b _; exact ⟨a, b⟩
+    | cons op ops ih =>
+      intro s a b hops
+      have hop := hops op (List.mem_cons_self ..)
+      have hrest : ∀ o ∈ ops, ClientOp o := fun o ho => hops o (List.mem_cons_of_mem _ ho)
+      simp only [run]
+      cases op with
+      | cccd on => exact ih _ a b hrest
+      | ack => exact ih _ a b hrest
+      | output =>
+        have : step s .output = (s, .nothing) := by simp [step, output, b]
+        rw [this]; exact ih _ a b hrest
+      | write v => exact absurd hop (fun x => x)
+      | confirm => exact absurd hop (fun x => x)
+      | wheel => exact absurd hop (fun x => x)
+      | reconnect => exact absurd hop (fun x => x)
+  obtain ⟨a, b⟩ := key rec s h1 h2 hrec
+  generalize (run s rec).1 = t at a b hw
+  simp only [step, write] at hw
+  cases hc : t.cccd with
+  | false => simp [hc] at hw
+  | true => simp [hc, cpWrite, a, procedureAlreadyInProgress] at hw
+
+/-- Wedge 1: the client clears the CCCD while the response is queued; `l2cap_output` drops the
+    indication without calling `csc_read_control_point`, `procedure_in_progress_` stays set. -/
+def wedgeCccdOps : List Op := [.write [4], .cccd false, .output]
+
+/-- Wedge 2: the link is lost while a procedure is pending; `procedure_in_progress_` is a member of
+    the server, the new connection finds the control point busy for ever. -/
+def wedgeReconnectOps : List Op := [.write [4], .reconnect]
+
+theorem reachAll_run {s : Sys} {g : Obs} (r : ReachAll s g) (ops : List Op) (h : ∀ op ∈ ops, op ≠ .confirm) :
+    ∃ g', ReachAll (run s ops).1 g' := by
+  induction ops generalizing s g with
+  | nil => exact ⟨g, r⟩
+  | cons op ops ih =>
+    simp only [run]
+    have hne := h op (List.mem_cons_self ..)
+    refine ih (ReachAll.step op r ?_) (fun o ho => h o (List.mem_cons_of_mem _ ho))
+    cases op <;> first | trivial | exact absurd rfl hne
+
+theorem wedge_cccd_cleared : ¬ Recovers (run (Sys.init []) wedgeCccdOps).1 :=
+  wedged_for_ever _ (by decide) (by decide)
+
+theorem wedge_reconnect : ¬ Recovers (run (Sys.init []) wedgeReconnectOps).1 :=
+  wedged_for_ever _ (by decide) (by decide)
+
+theorem never_deadlocks_full_witness : ¬ never_deadlocks_full := by
+  intro h
+  obtain ⟨g, r⟩ := reachAll_run (.init []) wedgeReconnectOps (by decide)
+  exact wedge_reconnect (h _ g r)
+
+/-- non-vacuity of `Recovers`: in scope the control point does recover (here: a pending procedure,
+    response sent by one `l2cap_output`) -/
+example : Recovers (run (Sys.init []) [.write [4]]).1 :=
+  ⟨[.output], by intro op h; simp at h; subst h; trivial, by decide⟩
 
 end BluetoeModel.Csc
